@@ -394,7 +394,7 @@ def run_native(s, stage_dir, tier, res):
     exe = os.path.join(wdir, "native.exe")
     srcs = [os.path.join(VERIF, s["spec"])] + [os.path.join(stage_dir, "plain", x) for x in s.get("link", [])]
     cc = s.get("cc", "clang")
-    cmd = [cc, "-g", "-O1", "-fsanitize=address,undefined", "-fno-sanitize-recover=undefined", "-DVERIF_ERROR=yaep_error",
+    cmd = [cc, "-g", "-O1", "-fsanitize=" + s.get("sanitize", "address,undefined"), "-fno-sanitize-recover=undefined", "-DVERIF_ERROR=yaep_error",
            "-D__CPROVER_assigns(...)=", "-D__CPROVER_loop_invariant(...)=", "-D__CPROVER_decreases(...)=",
            "-I" + stage_dir, "-I" + os.path.join(VERIF, "contracts")] + defs
     if cc == "clang++":      # mixed C / C++ stand-in: each file in its own language
